@@ -476,9 +476,9 @@ static void runGreedyTable(Rng & rng, int fixed) {
 // |V| from 1e5 to 1e10; in every state two or three actions share a transition row and have rewards that differ at rounding level
 // ((0.1+0.2)c vs 0.3c), by a gap between equalToleranceSmall and equalToleranceGeneral*|Q| (c vs c+5e-5 at c=2.5e7), or form a
 // chain a~b~c with a!~c.  The other actions are clearly worse.  Solved by VI, PI, LP on dense, sparse and query-only models.
-static Gen genBig(Rng & rng, int fixed, int & tieStyle) {
+static Gen genBig(Rng & rng, int fixed, int & tieStyle, bool thorough) {
     Gen G; G.dyadic = false; G.den = 8;
-    G.S = (size_t)rng.range(1, 5); G.A = (size_t)rng.range(2, 4);
+    G.S = (size_t)rng.range(1, thorough ? 9 : 5); G.A = (size_t)rng.range(2, thorough ? 6 : 4);
     static const double gs[] = {0.5, 0.75, 0.9, 0.95, 0.25};
     G.g = gs[rng.below(5)];
     int e = (int)rng.range(5, 10);
@@ -520,9 +520,9 @@ static Gen genBig(Rng & rng, int fixed, int & tieStyle) {
     return G;
 }
 
-static void runBig(Rng & rng, int fixed) {
+static void runBig(Rng & rng, int fixed, bool thorough = false) {
     int tieStyle = 0;
-    Gen G = genBig(rng, fixed, tieStyle);
+    Gen G = genBig(rng, fixed, tieStyle, thorough);
     const size_t S = G.S, A = G.A;
     M::Model dense(S, A, G.t, G.r, G.g);
     M::SparseModel sparse(S, A, G.t, G.r, G.g);
@@ -579,7 +579,7 @@ void verif::verif_case(Rng & rng, long idx, const std::string & tier) {
     if (idx < 3) { Gen G = fixedCase(idx); runAll(rng, G, tier, idx == 2); return; }
     if (idx < 7) { runBig(rng, (int)idx - 3); return; }                       // fixed large-scale near-tie witnesses
     if (idx < 10) { runGreedyTable(rng, idx == 7 ? 1 : idx == 8 ? 3 : 2); return; }   // fixed greedy rows: chains at both thresholds
-    if (idx % 8 == 5) { runBig(rng, -1); for (int k = 0; k < 6; ++k) runGreedyTable(rng, -1); return; }
+    if (idx % 8 == 5) { runBig(rng, -1, tier == "thorough"); for (int k = 0; k < 6; ++k) runGreedyTable(rng, -1); return; }
     const bool ugly = (idx % 4 == 3);
     Gen G = genMDP(rng, tier, ugly);
     runAll(rng, G, tier);
